@@ -115,16 +115,3 @@ Definition def_stable_b (d : definition) : bool :=
   | DFrag f => dirs_stable_b (fr_dirs f) && forallb sel_stable_b (fr_sels f)
   end.
 Definition doc_strings_stable_b (d : document) : bool := forallb def_stable_b d.
-
-(* EnterOperationDefinition writes the word "query" only for a named query or one with variables:
-   an anonymous query that has directives prints as "@dir {...}" *)
-Definition def_printable_b (d : definition) : bool :=
-  match d with
-  | DOp o =>
-    match op_kind o, op_name o, op_vars o, op_dirs o with
-    | OpQuery, None, [], _ :: _ => false
-    | _, _, _, _ => true
-    end
-  | DFrag _ => true
-  end.
-Definition doc_printable_b (d : document) : bool := forallb def_printable_b d.
